@@ -374,6 +374,13 @@ class Interp:
             return True
         if z3.is_false(c):
             return False
+        if not z3.is_bool(c):
+            # an i1 carried as an integer 0/1 (if-converted phi of comparisons)
+            c = z3.simplify(c != 0)
+            if z3.is_true(c):
+                return True
+            if z3.is_false(c):
+                return False
         if self._spec:
             raise Interp._Abort()
         return self.decide(c)
